@@ -278,6 +278,8 @@ def render_module(spec, m: int, src_value=None) -> str:
         for mk in t.get("marks", []):
             if mk == "skip":
                 L.append("@pytask.mark.skip")
+            elif mk == "skipif_true_e":      # a true condition with an empty reason text
+                L.append("@pytask.mark.skipif(True, reason='')")
             elif mk == "skipif_true":
                 L.append("@pytask.mark.skipif(True, reason='cond true')")
             elif mk == "skipif_false":
@@ -384,7 +386,7 @@ def model_lines(spec):
         marks = t.get("marks", [])
         if "skip" in marks:
             flags.append("skip")
-        if "skipif_true" in marks:
+        if "skipif_true" in marks or "skipif_true_e" in marks:
             flags.append("skipif")
         if "persist" in marks:
             flags.append("persist")
